@@ -11,33 +11,11 @@
 (* held}>> (vacuity control; counted by the orchestrator).  The            *)
 (* POSTCONDITION demands that the whole trace was consumed.                *)
 (***************************************************************************)
-EXTENDS Macro
+EXTENDS Judge
 
 Rec == Rec0
 
 VARIABLE l
-
-Clauses(e) ==
-    CASE e.ev = "Header"  -> <<>>
-      [] e.ev = "Convert" -> ConvertClauses(e)
-      [] e.ev = "Type"    -> TypeClauses(e)
-      [] e.ev = "Unit"    -> UnitClauses(e)
-      [] e.ev = "Cmp"     -> CmpClauses(e)
-      [] e.ev = "Arith"   -> ArithClauses(e)
-      [] e.ev = "Scalar"  -> ScalarClauses(e)
-      [] e.ev = "New"     -> NewClauses(e)
-      [] e.ev = "Derived" -> DerivedClauses(e)
-      [] e.ev = "Fit"     -> FitClauses(e)
-      [] e.ev = "Lookup"  -> LookupClauses(e)
-      [] e.ev = "Rate"    -> RateClauses(e)
-      [] e.ev = "Table"   -> TableClauses(e)
-      [] e.ev = "Format"  -> FormatClauses(e)
-      [] e.ev = "FormatUnit" -> FormatUnitClauses(e)
-      [] e.ev = "Serde"   -> SerdeClauses(e)
-      [] e.ev = "SI"      -> SIClauses(e)
-      [] e.ev = "Compile" -> AnyCompileClauses(e)
-      [] e.ev = "GenBuild" -> GenBuildClauses(e)
-      [] OTHER -> <<Cl("T.unknown_event", TRUE, FALSE)>>
 
 TraceInit == l = 1
 
